@@ -198,6 +198,10 @@ pub fn run_sync(sc: &Scenario, cfg: &RunCfg) -> RunResult {
                             let v: Vec<Box<dyn LAdapter<'static, String, Vec<String>>>> = vec![Box::new(PagedResults::new(*n)), Box::new(EntriesOnly::new())];
                             lc.streaming_search_with(v, &search.base, sc_, &search.filter_str, search.attrs.clone())
                         }
+                        Adapter::FailAfter(n) => {
+                            let v: Vec<Box<dyn LAdapter<'static, String, Vec<String>>>> = vec![Box::new(client::FailAfter { left: *n })];
+                            lc.streaming_search_with(v, &search.base, sc_, &search.filter_str, search.attrs.clone())
+                        }
                     };
                     match opened {
                         Err(e) => {
